@@ -140,4 +140,20 @@ pub struct ParamInsertionInfo {
     pub char_pos: usize,
     /// Whether a comma needs to be added before the new parameter.
     pub needs_comma: bool,
+    /// Whether a comma needs to be added after the new parameter (it is inserted in front
+    /// of an existing one, e.g. before the first parameter that has a default value).
+    pub comma_after: bool,
+}
+
+impl ParamInsertionInfo {
+    /// The text to insert at the position for a parameter called `name`.
+    pub fn insertion_text(&self, name: &str) -> String {
+        if self.needs_comma {
+            format!(", {}", name)
+        } else if self.comma_after {
+            format!("{}, ", name)
+        } else {
+            name.to_string()
+        }
+    }
 }
